@@ -180,7 +180,44 @@ def handle (j : Json) : Except String Json := do
     match tr with
     | .ok e => vals := vals.push (optValJ (evalS (envOf env) e))
     | _ => vals := vals.push .null
+  -- the entry points the theorems of Props/C06 are stated over (`trBody` = `trLoop` from the start, `trExpr`, `trArgs`),
+  -- run directly: `body` is what `fnToSympy … none` returns for a signature without `*args` / keyword-only parameters;
+  -- for a function that is a single `return e`, `expr` is the translation of `e` itself (= `body`), and for `e` a call
+  -- `args` are its translated arguments.  The harness compares them with `tr` (and through it with the real code).
+  let ctx0 : Syms := d.params.map (fun p => (p, SExpr.sym p))
+  let bodyTr : TR SExpr := (trBody T P fuelN d.globals [] d.body ctx0).map (·.1)
+  let loopTr : TR SExpr := (trLoop T P fuelN d.globals [] d.body [] d.body false ctx0).map (·.1)
+  let single : Option PyExpr := match d.body with
+    | [.ret e] => some e
+    | [.skip, .ret e] => some e
+    | _ => none
+  let exprJ : Json := match single with
+    | some e => trJ (trExpr T P fuelN d.globals [] ctx0 e)
+    | none => .null
+  let argsJ : Json := match single with
+    | some (.call _ args) =>
+      (match trArgs T P fuelN d.globals [] ctx0 args with
+       | .ok l => Json.mkObj [("ok", .arr (l.map sexprJ).toArray)]
+       | .error _ => Json.mkObj [("err", .bool true)])
+    | _ => .null
+  -- `_check_branch` / `_always_returns` on (branch, rest) pairs cut out of the function by the harness: the model's
+  -- `branchOk`, the generated accepting conditions evaluated by `checkBranchG`, and `bodyReturns`; the `ast` classes the
+  -- model's constructors stand for
+  let cbReq ← jArr (fieldD j "cb" (.arr #[]))
+  let cbOut ← cbReq.mapM fun r => do
+    let b ← jList jPyStmt (← field r "b")
+    let rest ← jList jPyStmt (← field r "rest")
+    pure (Json.mkObj [("ok", .bool (branchOk rest b)),
+                      ("gen", .bool (checkBranchG Mxl.C06.Generated.checkBranchAccept rest b)),
+                      ("ret", .bool (bodyReturns b))])
+  let classes : Json := .arr (d.body.map fun st => Json.str (stmtClass st)).toArray
+  let retClass : Json := match single with
+    | some e => .str (exprClass e)
+    | none => .null
   pure (Json.mkObj [("tr", trJ tr), ("vals", .arr vals), ("py", .arr pys),
+                    ("cb", .arr cbOut.toArray), ("classes", classes), ("ret_class", retClass),
+                    ("entry", Json.mkObj [("body", trJ bodyTr), ("loop", trJ loopTr), ("expr", exprJ), ("args", argsJ),
+                                          ("other_params", .bool d.otherParams)]),
                     ("flags", Json.mkObj [])])
 
 end Driver.H_c06
